@@ -143,7 +143,17 @@ def execute(mat, ctx):
     if any("citation" in f["quals"] for s in specs for f in s["features"]):
         j = rng.choice([0, len(specs) - 1])
         bad = copy.deepcopy(specs[j])
-        bad["features"] = list(bad["features"]) + [{"type": "misc_feature", "parts": [[0, 1, 1]], "quals": {"uid": ["bad"], "citation": [rng.choice(["[99]", "7", "[x]"])]}}]
+        badcit = [rng.choice(["[99]", "7", "[x]"])]
+        # own stream: the bad citation is not the feature's first one - the valid ones before it have been looked up already
+        # when the call fails half-way through the feature
+        rb = gen.rng_for(mat["id"], PROP, "bad-citation-position", len(specs))
+        withrefs = [i for i, s in enumerate(specs) if s.get("refs")]
+        if withrefs and rb.random() < 0.6:
+            j = rb.choice(withrefs)
+            bad = copy.deepcopy(specs[j])
+            nr = len(bad["refs"])
+            badcit = ["[%d]" % rb.randint(1, nr) for _ in range(rb.randint(1, 2))] + badcit + (["[%d]" % rb.randint(1, nr)] if rb.random() < 0.5 else [])
+        bad["features"] = list(bad["features"]) + [{"type": "misc_feature", "parts": [[0, 1, 1]], "quals": {"uid": ["bad"], "citation": badcit}}]
         recs = [vrec] + mrecs
         recs[j] = gen.make_record(bad)
         _mon.tag = {"call": "bad-citation"}
